@@ -297,15 +297,24 @@ def results_equal(a, b):
 # ---------------------------------------------------------------------------------------------
 # C19
 
+def eff_frac(f):
+    # what the core's setter stores: (0,1] as given, above 1 -> 1, non-positive -> unchanged default
+    if f > 0.0 and f <= 1.0:
+        return f
+    if f <= 0.0:
+        return 0.05
+    return 1.0
+
+
 def lvs(spec):
     k = spec["kind"]
     if k == "RV":
         b = spec["bounds"]
-        return math.sqrt(sum((hi - lo) ** 2 for lo, hi in b)) * spec["frac"]
+        return math.sqrt(sum((hi - lo) ** 2 for lo, hi in b)) * eff_frac(spec["frac"])
     if k == "SO2":
-        return math.pi * spec["frac"]
+        return math.pi * eff_frac(spec["frac"])
     if k == "SO3":
-        return 0.5 * math.pi * spec["frac"]
+        return 0.5 * math.pi * eff_frac(spec["frac"])
     if k == "Compound":
         return math.sqrt(sum((lvs(p) * w) ** 2 for p, w in zip(spec["parts"], spec["weights"])))
     if k == "SE2":
